@@ -366,6 +366,21 @@ func genAstWriteFacts() {
 							o := p.Info.Uses[id]
 							return !freshLocal(o)
 						}
+						// a field this function re-pointed to fresh memory (x.f = make(…); copy(x.f, …)) in a block
+						// that encloses the call: the bulk write goes into that fresh memory
+						if _, isSel := e.(*ast.SelectorExpr); isSel {
+							base := exprText(e)
+							for _, r := range repoints {
+								if r.path != base || r.pos > e.Pos() {
+									continue
+								}
+								for n := ast.Node(e); n != nil; n = par[n] {
+									if n == r.block {
+										return false
+									}
+								}
+							}
+						}
 						return true
 					}
 					if id, ok := x.Fun.(*ast.Ident); ok {
